@@ -875,12 +875,17 @@ func httpStatusCode(proto string, status int) int {
 
 // failingBody delivers data and then fails (a response that promises more than it delivers).
 type failingBody struct {
-	data []byte
-	err  error
+	data   []byte
+	err    error
+	before func() // runs once, right before the failure is reported
 }
 
 func (f *failingBody) Read(p []byte) (int, error) {
 	if len(f.data) == 0 {
+		if f.before != nil {
+			f.before()
+			f.before = nil
+		}
 		return 0, f.err
 	}
 	n := copy(p, f.data)
